@@ -1083,6 +1083,34 @@ fn is_challenge_char(c: char) -> bool {
         || c == '_'
 }
 
+/// Verification hooks, compiled only with `--cfg iroh_verif`.
+#[cfg(iroh_verif)]
+pub mod verif_hooks {
+    use super::*;
+
+    /// Runs the captive-portal handler on a request carrying `challenge` (if any) and
+    /// returns the status code and the raw response header value (if any).
+    ///
+    /// Returns `None` if `challenge` is not a legal HTTP header value.
+    pub fn no_content(challenge: Option<&[u8]>) -> Option<(u16, Option<Vec<u8>>)> {
+        let mut req = Request::builder().uri("/generate_204");
+        if let Some(c) = challenge {
+            let v = HeaderValue::from_bytes(c).ok()?;
+            req = req.header(NO_CONTENT_CHALLENGE_HEADER, v);
+        }
+        let req = req.body(Full::<hyper::body::Bytes>::default()).ok()?;
+        match serve_no_content_handler(req, Response::builder()) {
+            Ok(resp) => Some((
+                resp.status().as_u16(),
+                resp.headers()
+                    .get(NO_CONTENT_RESPONSE_HEADER)
+                    .map(|v| v.as_bytes().to_vec()),
+            )),
+            Err(_) => Some((0, None)),
+        }
+    }
+}
+
 /// Health check response
 #[derive(Serialize)]
 struct Health {
